@@ -55,7 +55,9 @@ import (
 	"verif/ev"
 )
 
-const maxIncidentsPerUnit = 3
+// a unit is abandoned (and reported as a cap) after this many hangs/slow deaths or fast deaths
+const maxSlowIncidentsPerUnit = 3
+const maxFastIncidentsPerUnit = 200
 const maxClassesPerExtractor = 32
 
 // ring keeps the first and the last 96 KiB of a worker's stderr (the crashing goroutine is printed first).
@@ -201,6 +203,7 @@ func (c *coord) wdFor(ex string) time.Duration {
 type unitOutcome struct {
 	evals, exerc int64
 	incidents    int
+	slowInc      int
 	abandoned    bool
 	partial      bool
 	obs          []string
@@ -441,13 +444,16 @@ func (m *manager) run(u unit) (out unitOutcome, err error) {
 			c.violation(u, u.Ex+":"+kind, fmt.Sprintf("worker process died (%s) %s", p.cmd.ProcessState, strings.SplitN(detail, "\n", 2)[0]), seq, detail)
 		}
 		out.incidents++
+		if time.Since(time.Unix(0, m.last.Load())) > 10*time.Second {
+			out.slowInc++
+		}
 		// the mutants before seq ran but their counters died with the worker: count them as executed
 		// (lower bound: only the killing one is certain)
 		out.evals++
 		if u.Kind != "extract" || u.Data != nil {
 			return out, nil
 		}
-		if out.incidents >= maxIncidentsPerUnit || time.Now().After(c.deadline) {
+		if out.slowInc >= maxSlowIncidentsPerUnit || out.incidents >= maxFastIncidentsPerUnit || time.Now().After(c.deadline) {
 			out.abandoned = true
 			return out, nil
 		}
